@@ -292,6 +292,7 @@ func (c *cache) Get(ctx context.Context, cacheId string, forceRevalidate int, sk
 
 func (c *cache) getReaderOrWriter(ctx context.Context, cacheId string, k Key, w http.ResponseWriter, isRevalidating bool, staleWhileRevalidate bool, logctx *apexlog.Logger) (CacheResult, error) {
 	rk := k.FsName()
+	verifPointS("grw.before-lock", rk)
 	c.waitingReadersLock.Lock()
 	verifPointS("grw.locked", rk)
 	//c.logger.Debugf("Checking if %v exists", rk)
